@@ -354,6 +354,14 @@ func (g *Gen) contractOp() Op {
 			if g.R.Chance(0.6) {
 				return Op{K: "ct.remove", A: a, S: name, Edge: cur.Variant == "enum"}
 			}
+			if g.R.Chance(0.35) {
+				// an update that must be refused, of a contract deployed by this very transaction
+				k := "ct.update"
+				if g.R.Chance(0.4) {
+					k = "ct.tryUpdate"
+				}
+				return Op{K: k, A: a, S: name, I: ver, M: "incompat", Edge: true}
+			}
 			return Op{K: "ct.update", A: a, S: name, I: ver, M: cur.Variant}
 		case cur == nil && g.R.Chance(0.85):
 			return Op{K: "ct.add", A: a, S: name, I: ver, M: variant, Edge: variant != "ok" && variant != "enum"}
